@@ -124,6 +124,13 @@ func Atlas() []*spec.Program {
 		var fs []spec.Field
 		for _, s := range []string{"int32", "int64", "uint32", "uint64", "float", "double", "bool", "string", "bytes"} {
 			fs = append(fs, F(title(s)+"Cast", s, cast(castOf[s])))
+			if s == "int64" {
+				// a cast type that is not the configured custom duration although its name ends with it
+				fs = append(fs, F("LeaseCast", s, cast("LeaseDuration")), F("LeaseCastList", s, rep(), cast("LeaseDuration")))
+			}
+			if s == "int32" {
+				fs = append(fs, F("XDurCast", s, cast("XDuration")))
+			}
 			fs = append(fs, F(title(s)+"CastList", s, rep(), cast(castOf[s])))
 		}
 		out = append(out, prog("a_casts", convProps, baseConfig("Casts", "Wrap"), nil, M("Casts", nil, fs...), wrap("Wrap", "Casts")))
@@ -159,7 +166,12 @@ func Atlas() []*spec.Program {
 	}
 	// --- empty messages
 	{
-		out = append(out, prog("a_empty", convProps, baseConfig("HasEmpty"), nil, M("Empty", nil),
+		ecfg := baseConfig("HasEmpty")
+		ecfg.InjectedFields = map[string][]spec.Injected{
+			"HasEmpty.EmptyP": {{Name: "revision", Type: "github.com/hashicorp/terraform-plugin-framework/types.StringType", TyAbs: "str", Computed: true}},
+			"HasEmpty":        {{Name: "id", Type: "github.com/hashicorp/terraform-plugin-framework/types.StringType", TyAbs: "str", Computed: true}},
+		}
+		out = append(out, prog("a_empty", convProps, ecfg, nil, M("Empty", nil),
 			M("HasEmpty", nil, F("EmptyP", "msg:Empty"), F("EmptyV", "msg:Empty", nn()), F("Str", "string"))))
 		out = append(out, prog("a_emptycoll", convProps, baseConfig("HasEmptyColl"), nil, M("Empty", nil),
 			M("HasEmptyColl", nil, F("EmptyList", "msg:Empty", rep()), F("EmptyListV", "msg:Empty", rep(), nn()), F("EmptyMap", "map:msg:Empty"), F("EmptyMapV", "map:msg:Empty", nn()), F("Str", "string"))))
@@ -183,7 +195,17 @@ func Atlas() []*spec.Program {
 		leaf := M("Leaf", nil, F("Str", "string"))
 		emb := M("Emb", nil, F("EmbStr", "string", jsontag("emb_str")), F("EmbInt", "int64"), F("EmbLeaf", "msg:Leaf"), F("EmbLeafV", "msg:Leaf", nn()), F("EmbList", "string", rep()), F("EmbMap", "map:int32"), F("EmbLeaves", "msg:Leaf", rep()))
 		root := M("HasEmb", nil, F("Own", "string"), F("Emb", "msg:Emb", nn(), embed()), F("Tail", "bool"))
-		out = append(out, prog("a_embed", convProps, baseConfig("HasEmb", "Wrap"), nil, leaf, emb, root, wrap("Wrap", "HasEmb")))
+		embCfg := baseConfig("HasEmb", "Wrap")
+		// options addressed by <Message>.<field> to fields of the embedded message: they hold where it is embedded in a
+		// root (path HasEmb.<field>) and where the root is nested (path Wrap.<...>.<field>)
+		embCfg.ExcludeFields = []string{"Emb.EmbMap"}
+		embCfg.SensitiveFields = []string{"Emb.EmbStr"}
+		embCfg.RequiredFields = []string{"Emb.EmbInt"}
+		embCfg.ComputedFields = []string{"Emb.EmbList", "HasEmb.EmbLeaves"}
+		embCfg.UseStateForUnknownByDefault = true
+		embCfg.NameOverrides = map[string]string{"Emb.EmbLeafV": "leaf_by_value"}
+		embCfg.Validators = map[string][]string{"Emb.EmbInt": {spec.SupportPkg + `.V("embint")`}}
+		out = append(out, prog("a_embed", convProps, embCfg, nil, leaf, emb, root, wrap("Wrap", "HasEmb")))
 	}
 	// --- embedded, nullable, scalar children (F3, F6)
 	{
@@ -218,6 +240,22 @@ func Atlas() []*spec.Program {
 		emb2 := M("EmbP", []string{"Pick"}, F("Plain", "string"), F("A", "string", oneof(0)), F("B", "msg:Br", oneof(0)))
 		out = append(out, prog("a_embednoneof", append([]string{"C07"}, convProps...), baseConfig("HasEmbP"), nil, br, emb2,
 			M("HasEmbP", nil, F("Own", "string"), F("EmbP", "msg:EmbP", embed()))))
+	}
+	// --- sort: the fields promoted from nullable embedded messages interleave, by name, with each other and with
+	// the fields of the containing message
+	{
+		lim := M("Limits", nil, F("Alpha", "string"), F("Gamma", "int64"), F("Kappa", "string", rep()))
+		quo := M("Quota", nil, F("Beta2", "bool"), F("Eta", "string"))
+		scfg := baseConfig("Server")
+		scfg.Sort = true
+		out = append(out, prog("a_embedsort", convProps, scfg, nil, lim, quo,
+			M("Server", nil, F("Beta", "string"), F("Limits", "msg:Limits", embed()), F("Delta", "int32"), F("Quota", "msg:Quota", embed()), F("Zeta", "string"))))
+	}
+	// --- a nullable embedded message all of whose fields are oneof branches
+	{
+		ch := M("Choice", []string{"Kind"}, F("ChName", "string", oneof(0)), F("ChNumber", "int64", oneof(0)))
+		out = append(out, prog("a_embedonlyoneof", append([]string{"C07"}, convProps...), baseConfig("HasChoice"), nil, ch,
+			M("HasChoice", nil, F("Id", "string"), F("Choice", "msg:Choice", embed()))))
 	}
 	// --- field-less messages promoted from a nullable embedded message (by value, by pointer, repeated, map value)
 	{
@@ -345,7 +383,8 @@ func Atlas() []*spec.Program {
 			"Val": {spec.SupportPkg + `.V("decoy1")`}, "L1.A": {spec.SupportPkg + `.V("decoy2")`}, "flags.pm": {spec.SupportPkg + `.V("decoy3")`}}
 		cfg.PlanModifiers = map[string][]string{"Flags.Pm": {spec.SupportPkg + `.PM("p1")`}, "Flags.CompPm": {spec.SupportPkg + `.PM("explicit")`}, "Flags.L2.A": {"github.com/hashicorp/terraform-plugin-framework/tfsdk.UseStateForUnknown()", spec.SupportPkg + `.PM("p2")`}}
 		cfg.InjectedFields = map[string][]spec.Injected{
-			"Flags":    {{Name: "id", Type: "github.com/hashicorp/terraform-plugin-framework/types.StringType", TyAbs: "str", Computed: true, PlanModifiers: []string{"github.com/hashicorp/terraform-plugin-framework/tfsdk.UseStateForUnknown()"}}, {Name: "extra", Type: "github.com/hashicorp/terraform-plugin-framework/types.Int64Type", TyAbs: "i64", Optional: true, Validators: []string{spec.SupportPkg + `.V("inj")`}}},
+			"Flags":    {{Name: "id", Type: "github.com/hashicorp/terraform-plugin-framework/types.StringType", TyAbs: "str", Computed: true, PlanModifiers: []string{"github.com/hashicorp/terraform-plugin-framework/tfsdk.UseStateForUnknown()"}}, {Name: "extra", Type: "github.com/hashicorp/terraform-plugin-framework/types.Int64Type", TyAbs: "i64", Optional: true, Validators: []string{spec.SupportPkg + `.V("inj")`}},
+				{Name: "another", Type: "github.com/hashicorp/terraform-plugin-framework/types.BoolType", TyAbs: "bool", Optional: true}, {Name: "zz_last", Type: "github.com/hashicorp/terraform-plugin-framework/types.StringType", TyAbs: "str", Computed: true}},
 			"Flags.L1": {{Name: "nested_injected", Type: "github.com/hashicorp/terraform-plugin-framework/types.BoolType", TyAbs: "bool", Required: true}},
 		}
 		out = append(out, prog("a_flags", append([]string{"C10"}, convProps...), cfg, nil, leaf, root))
